@@ -186,15 +186,24 @@ theorem tolerable_tail (minLimit limit : Nat) (errs : List Bool) (h : Tolerable 
     | true => simp at hh
     | false => exact h
 
+theorem pageFold_readable {σ : Type} (f : σ → Nat × V → σ × List Nat) (bad : Nat × V → Bool) (page : KV V) :
+    ∀ s : LoadSt V σ, (∀ e ∈ page, bad e = false) → pageFold f bad s page = (page.foldl (pageStep f) s, false) := by
+  induction page with
+  | nil => intro s _; rfl
+  | cons e page ih =>
+    intro s h
+    simp only [pageFold, h e (by simp), Bool.false_eq_true, if_false, List.foldl_cons]
+    exact ih _ (fun x hx => h x (by simp [hx]))
+
 /-- **paging is transparent**: with a tolerable error pattern and enough fuel the loop of `loadRegions`
     ends without error in the state reached by handing every remaining item, in key order, to the callback -/
-theorem loadRegionsLoop_spec {σ : Type} (f : σ → Nat × V → σ × List Nat) (P : Nat × V → Prop)
-    (J : σ → Nat → Prop) (hf : CbInv f P J) (minLimit : Nat) (hmin : 0 < minLimit) :
+theorem loadRegionsLoop_spec {σ : Type} (f : σ → Nat × V → σ × List Nat) (bad : Nat × V → Bool)
+    (P : Nat × V → Prop) (J : σ → Nat → Prop) (hf : CbInv f P J) (minLimit : Nat) (hmin : 0 < minLimit) :
     ∀ (fuel next limit : Nat) (errs : List Bool) (s : LoadSt V σ),
-      Sorted s.kv → Bounded s.kv → (∀ e ∈ s.kv, P e) → J s.cb next →
+      Sorted s.kv → Bounded s.kv → (∀ e ∈ s.kv, P e ∧ bad e = false) → J s.cb next →
       next ≤ maxU64 → 0 < limit → Tolerable minLimit limit errs →
       (fromId s.kv next).length + errs.length < fuel →
-      loadRegionsLoop f minLimit fuel next limit errs s =
+      loadRegionsLoop f bad minLimit fuel next limit errs s =
         some (false, (fromId s.kv next).foldl (pageStep f) s) := by
   intro fuel
   induction fuel with
@@ -223,6 +232,9 @@ theorem loadRegionsLoop_spec {σ : Type} (f : σ → Nat × V → σ × List Nat
         intro x hx; rw [← hl0] at hx
         have := List.mem_filter.1 hx
         exact ⟨this.1, by simpa using this.2⟩
+      rw [pageFold_readable f bad (l.take limit) s
+        (fun x hx => (hP x (hlmem x (List.mem_of_mem_take hx)).1).2)]
+      simp only [Bool.false_eq_true, if_false]
       by_cases hshort : (l.take limit).length < limit
       · rw [if_pos hshort]
         have : l.take limit = l := by
@@ -242,7 +254,7 @@ theorem loadRegionsLoop_spec {σ : Type} (f : σ → Nat × V → σ × List Nat
         have hpage : ∀ x ∈ l.take limit, P x ∧ next ≤ x.1 ∧ x.1 < eL.1 + 1 := by
           intro x hx
           have hm := hlmem x (List.mem_of_mem_take hx)
-          exact ⟨hP x hm.1, hm.2, hbelow x hx⟩
+          exact ⟨(hP x hm.1).1, hm.2, hbelow x hx⟩
         have hspage : Sorted (l.take limit) := by
           have : (l.take limit ++ l.drop limit).Pairwise (fun a b => a.1 < b.1) := by
             rw [List.take_append_drop]; exact hsl
